@@ -13,9 +13,16 @@
 //   I fork <model> <integ> <param>        two fresh child processes forked from the still pristine harness process:
 //        child A runs the simulation first thing; child B first does variant 1 + variant 2, then the simulation
 //   O fork <same:0|1>
+//   I aux <which> <param>               which 0: Assembler with a custom AssemblyCondition that uses the DEFAULT calcGoal()
+//        (the shared `static Vector err`), 1: IPOPT (InteriorPoint) optimizer, 2: CMA-ES with a fixed seed; the call is made,
+//        then another instance of the same kind with other data plus variant-2 work, then the call is repeated
+//   O aux <same:0|1>
 //   P bitwise_equal <key> <#differing samples> 0       key = <kind>.<model name>.<integrator name>[.v<variant>]
-// A "sample" is the full continuous state y=(q,u,z) and the time at a report instant, compared bit for bit, plus the
-// integrator's step statistics at the end.
+//   P progressed   <key>.progressed <0|1> 0             1 = no compared sample of the scenario got past t = 0 (nothing was simulated)
+//   P dead_share   scenarios.dead_share <fraction> 0.05  (after the last record; measured 0.0009) fraction of scenarios in which a simulation
+//                                                       threw or could not be built: a floor against "everything dies => all equal"
+// A "sample" is the time, the full continuous state y=(q,u,z) and the accelerations udot (a cache-dependent result,
+// realized through Acceleration stage) at a report instant, compared bit for bit, plus the integrator's step statistics.
 #include "Simbody.h"
 #include "hcommon.h"
 #include <unistd.h>
@@ -126,19 +133,29 @@ static std::unique_ptr<Sim> buildSim(int model, int integ, uint64_t param) {
 }
 
 typedef std::vector<uint64_t> Sample;
+static long g_scenarios = 0, g_deadScenarios = 0;       // floor against vacuous equality (review item X1)
+static bool g_curDead = false, g_curProgress = false;
 static Sample sampleOf(const Sim& s) {
     const State& st = s.integ->getState();
     Sample v;
     uint64_t u; double t = st.getTime(); std::memcpy(&u, &t, 8); v.push_back(u);
+    if (t > 0) g_curProgress = true;
     const Vector& y = st.getY();
     for (int i = 0; i < y.size(); ++i) { double d = y[i]; std::memcpy(&u, &d, 8); v.push_back(u); }
+    if (!s.dead) {
+        try {                                            // cache-dependent result: accelerations (incl. contact forces' effect)
+            s.system.realize(st, Stage::Acceleration);
+            const Vector& ud = st.getUDot();
+            for (int i = 0; i < ud.size(); ++i) { double d = ud[i]; std::memcpy(&u, &d, 8); v.push_back(u); }
+        } catch (const std::exception&) { v.push_back(0xACCull); }
+    }
     return v;
 }
 // one operation: advance to the next report instant; returns the sample there
 static Sample stepOnce(Sim& s) {
     if (!s.dead) {
         try { s.ts->stepTo(s.dt * s.nextReport); }
-        catch (const std::exception&) { s.dead = true; }     // e.g. Integrator::StepFailed: must happen identically in every run
+        catch (const std::exception&) { s.dead = true; g_curDead = true; }   // e.g. Integrator::StepFailed: must happen identically in every run
     }
     ++s.nextReport;
     Sample v = sampleOf(s);
@@ -149,7 +166,7 @@ static Sample stepOnce(Sim& s) {
 }
 // construction failures (e.g. an initial projection that does not converge) are deterministic outcomes too
 static std::unique_ptr<Sim> buildSimSafe(int model, int integ, uint64_t param) {
-    try { return buildSim(model, integ, param); } catch (const std::exception&) { return nullptr; }
+    try { return buildSim(model, integ, param); } catch (const std::exception&) { g_curDead = true; return nullptr; }
 }
 static const Sample kBuildFailed = {0xBADull};
 static std::vector<Sample> runAlone(int model, int integ, uint64_t param, int nOps) {
@@ -179,6 +196,57 @@ struct Quad : public OptimizerSystem {
     int gradientFunc(const Vector& x, bool, Vector& g) const override { for (int i = 0; i < 3; ++i) g[i] = 2 * (i + 1) * (x[i] - i); return 0; }
 };
 }
+// ---- users of classified statics outside simulation (review item M2): Assembler with the default calcGoal() (shared
+// `static Vector err`), IPOPT (TaggedObject::unique_tag_, RegisteredOption::next_counter_), c-cmaes (static buffers)
+namespace {
+struct StationGoal : public AssemblyCondition {         // implements calcErrors only -> AssemblyCondition::calcGoal() default
+    const SimbodyMatterSubsystem& matter; MobilizedBodyIndex mb; Vec3 station, target; int nerr;
+    StationGoal(const SimbodyMatterSubsystem& m, MobilizedBodyIndex b, const Vec3& st, const Vec3& tg, int n)
+    :   AssemblyCondition("stationGoal"), matter(m), mb(b), station(st), target(tg), nerr(n) {}
+    int calcErrors(const State& s, Vector& err) const override {
+        const Vec3 p = matter.getMobilizedBody(mb).findStationLocationInGround(s, station);
+        err.resize(nerr); for (int i = 0; i < nerr; ++i) err[i] = p[i % 3] - target[i % 3]; return 0; }
+    int getNumErrors(const State&) const override { return nerr; }
+};
+struct Quad4 : public OptimizerSystem {
+    double c[4];
+    explicit Quad4(uint64_t p) : OptimizerSystem(4) { vh::Rng r(p * 31 + 5); for (double& x : c) x = r.range(-1, 1);
+        Vector lo(4, -2.0), hi(4, 2.0); setParameterLimits(lo, hi); }
+    int objectiveFunc(const Vector& x, bool, Real& f) const override { f = 0; for (int i = 0; i < 4; ++i) f += (i + 1) * (x[i] - c[i]) * (x[i] - c[i]); f += .1 * x[0] * x[1]; return 0; }
+    int gradientFunc(const Vector& x, bool, Vector& g) const override { for (int i = 0; i < 4; ++i) g[i] = 2 * (i + 1) * (x[i] - c[i]); g[0] += .1 * x[1]; g[1] += .1 * x[0]; return 0; }
+};
+}
+static std::vector<uint64_t> bitsOf(const Vector& v, double extra) {
+    std::vector<uint64_t> out; uint64_t u;
+    for (int i = 0; i < v.size(); ++i) { double d = v[i]; std::memcpy(&u, &d, 8); out.push_back(u); }
+    std::memcpy(&u, &extra, 8); out.push_back(u); return out;
+}
+static std::vector<uint64_t> runAux(int which, uint64_t p) {
+    try {
+        if (which == 0) {
+            MultibodySystem sys; SimbodyMatterSubsystem matter(sys); vh::Rng r(p * 77 + 1);
+            Body::Rigid body(MassProperties(1, Vec3(0), UnitInertia(1)));
+            MobilizedBody::Pin a(matter.Ground(), Transform(), body, Transform(Vec3(0, .5, 0)));
+            MobilizedBody::Pin b(a, Transform(Vec3(0, -.5, 0)), body, Transform(Vec3(0, .5, 0)));
+            MobilizedBody::Pin c(b, Transform(Vec3(0, -.5, 0)), body, Transform(Vec3(0, .5, 0)));
+            State st = sys.realizeTopology(); sys.realizeModel(st);
+            for (int i = 0; i < st.getNQ(); ++i) st.updQ()[i] = r.range(-.5, .5);
+            Assembler asmb(sys);
+            asmb.adoptAssemblyGoal(new StationGoal(matter, c, Vec3(0, -.5, 0), Vec3(r.range(.4, .9), -r.range(.4, .9), 0), 2 + (int)(p % 3)), 1);
+            Real g = asmb.assemble(st);
+            return bitsOf(st.getQ(), g);
+        }
+        Quad4 q(p); Vector x(4, 0.25);
+        Optimizer opt(q, which == 1 ? InteriorPoint : CMAES);
+        opt.setDiagnosticsLevel(0); opt.setConvergenceTolerance(1e-6); opt.setMaxIterations(which == 1 ? 200 : 60);
+        if (which == 1) opt.useNumericalGradient(false);
+        else { opt.setAdvancedIntOption("seed", 11 + (int)(p % 5)); opt.setAdvancedRealOption("init_stepsize", 0.5);
+               opt.setAdvancedRealOption("maxTimeFractionForEigendecomposition", 1); }
+        Real f = opt.optimize(x);
+        return bitsOf(x, f);
+    } catch (const std::exception&) { return std::vector<uint64_t>{0xE0Cull}; }
+}
+
 static void unrelatedLibraryCalls(uint64_t param) {
     // geometry queries
     ContactGeometry::Ellipsoid ell(Vec3(1, 2, 3));
@@ -202,6 +270,12 @@ static void unrelatedLibraryCalls(uint64_t param) {
     MultibodyGraphMaker mgm; mgm.addJointType("pin", 1); mgm.addBody("ground", 0, false); mgm.addBody("a", 1, false); mgm.addBody("b", 1, false);
     mgm.addJoint("j0", "pin", "ground", "a", false); mgm.addJoint("j1", "pin", "a", "b", false); mgm.addJoint("j2", "pin", "b", "ground", false);
     mgm.generateGraph(); sink += mgm.getNumMobilizers();
+    // the process-wide XML option, toggled and restored
+    bool cw = Xml::Document::isXmlWhiteSpaceCondensed(); Xml::Document::setXmlCondenseWhiteSpace(!cw);
+    { Xml::Document d3; d3.readFromString("<r> a   b </r>"); sink += (double)d3.getRootElement().getValue().size(); }
+    Xml::Document::setXmlCondenseWhiteSpace(cw);
+    // Assembler (default calcGoal), IPOPT, CMA-ES
+    for (int w = 0; w < 3; ++w) sink += (double)runAux(w, param + 100 + w).size();
     unrelatedSims(param + 5);
 }
 
@@ -209,11 +283,19 @@ static void unrelatedLibraryCalls(uint64_t param) {
 static const int NOPS = 10;
 static std::string keyOf(const char* kind, int m, int k) { return std::string(kind) + "." + MODEL_NAME[m] + "." + INTEG_NAME[k]; }
 
+static void beginScenario() { g_curDead = false; g_curProgress = false; }
+static void endScenario(const std::string& key) {
+    ++g_scenarios; if (g_curDead) { ++g_deadScenarios; vh::D("obs.simulationDiedOrBuildFailed"); }
+    vh::P("progressed", key + ".progressed", g_curProgress ? 0 : 1, 0);
+}
 static void doRepeat(int m, int k, uint64_t p, int v) {
     vh::I("repeat").i(m).i(k).i((long long)p).i(v).emit();
+    beginScenario();
     std::vector<Sample> a = runAlone(m, k, p, NOPS);
+    bool deadA = g_curDead, progA = g_curProgress;
     if (v == 1) unrelatedSims(p);
     if (v == 2) unrelatedLibraryCalls(p);
+    g_curDead = deadA; g_curProgress = progA;            // only the compared simulation counts, not the unrelated ones
     std::vector<Sample> b = runAlone(m, k, p, NOPS);
     int d = differing(a, b);
     if (std::getenv("VERIF_C46_DEBUG")) {
@@ -225,6 +307,7 @@ static void doRepeat(int m, int k, uint64_t p, int v) {
     std::printf("O repeat %d\n", d == 0 ? 1 : 0);
     vh::D(keyOf("repeat", m, k) + ".v" + std::to_string(v));
     vh::P("bitwise_equal", keyOf("repeat", m, k) + ".v" + std::to_string(v), d, 0);
+    endScenario(keyOf("repeat", m, k) + ".v" + std::to_string(v));
 }
 
 static void doInterleave(const std::vector<int>& sched, const int m[3], const int k[3], uint64_t p) {
@@ -234,6 +317,7 @@ static void doInterleave(const std::vector<int>& sched, const int m[3], const in
     in.i((long long)p); in.emit();
     int cnt[3] = {0, 0, 0};
     for (int o : sched) ++cnt[o];
+    beginScenario();
     std::vector<Sample> alone[3];
     for (int i = 0; i < 3; ++i) alone[i] = runAlone(m[i], k[i], p + i, cnt[i]);
     std::unique_ptr<Sim> sims[3];
@@ -244,14 +328,30 @@ static void doInterleave(const std::vector<int>& sched, const int m[3], const in
     for (int i = 0; i < 3; ++i) d[i] = differing(alone[i], inter[i]);
     std::printf("O interleave %d %d %d %d %d %d\n", (int)inter[0].size() - 1, (int)inter[1].size() - 1, (int)inter[2].size() - 1, d[0] == 0, d[1] == 0, d[2] == 0);
     for (int i = 0; i < 3; ++i) { vh::D(keyOf("interleave", m[i], k[i])); vh::P("bitwise_equal", keyOf("interleave", m[i], k[i]), d[i], 0); }
+    endScenario(std::string("interleave"));
+}
+
+static const char* AUX_NAME[] = {"assemblerDefaultGoal", "ipopt", "cmaesSeeded"};
+static void doAux(int which, uint64_t p) {
+    vh::I("aux").i(which).i((long long)p).emit();
+    std::vector<uint64_t> a = runAux(which, p);
+    sink += (double)runAux(which, p + 1).size();          // another instance of the same kind, other data
+    unrelatedLibraryCalls(p);
+    std::vector<uint64_t> b = runAux(which, p);
+    int d = (a == b) ? 0 : 1;
+    std::printf("O aux %d\n", d == 0 ? 1 : 0);
+    vh::D(std::string("aux.") + AUX_NAME[which] + (a.size() == 1 ? ".threw" : ".ok"));
+    vh::P("bitwise_equal", std::string("aux.") + AUX_NAME[which], d, 0);
 }
 
 // child: optionally do unrelated things, then run the simulation; write all samples to fd
 static void childRun(int fd, int m, int k, uint64_t p, bool busyBefore) {
     if (busyBefore) { unrelatedSims(p); unrelatedLibraryCalls(p + 1); }
+    g_curDead = false; g_curProgress = false;
     std::vector<Sample> a = runAlone(m, k, p, NOPS);
     std::vector<uint64_t> flat;
     for (auto& s : a) { flat.push_back(s.size()); flat.insert(flat.end(), s.begin(), s.end()); }
+    flat.push_back(g_curDead ? 1 : 0); flat.push_back(g_curProgress ? 1 : 0);      // trailing flags for the parent's bookkeeping
     size_t off = 0, bytes = flat.size() * 8;
     while (off < bytes) { ssize_t w = write(fd, (const char*)flat.data() + off, bytes - off); if (w <= 0) break; off += (size_t)w; }
     close(fd);
@@ -271,19 +371,21 @@ static bool forkRun(int m, int k, uint64_t p, bool busyBefore, std::vector<uint6
     out.resize(acc.size() / 8); std::memcpy(out.data(), acc.data(), out.size() * 8);
     return WIFEXITED(status) && WEXITSTATUS(status) == 0 && !out.empty();
 }
-struct ForkResult { int m, k; uint64_t p; bool ok; int diff; };
+struct ForkResult { int m, k; uint64_t p; bool ok; int diff; bool dead, progress; };
 static ForkResult doForkCompute(int m, int k, uint64_t p) {       // must be called while this process is still pristine
     std::vector<uint64_t> a, b;
     bool ok = forkRun(m, k, p, false, a) && forkRun(m, k, p, true, b);
     int d = 0;
     if (ok) { d = (int)(a.size() > b.size() ? a.size() - b.size() : b.size() - a.size()); for (size_t i = 0; i < std::min(a.size(), b.size()); ++i) if (a[i] != b[i]) ++d; }
-    return ForkResult{m, k, p, ok, ok ? d : 1};
+    bool dead = ok && a.size() >= 2 && a[a.size() - 2] != 0, prog = ok && a.size() >= 2 && a[a.size() - 1] != 0;
+    return ForkResult{m, k, p, ok, ok ? d : 1, dead, prog};
 }
 static void emitFork(const ForkResult& f) {
     vh::I("fork").i(f.m).i(f.k).i((long long)f.p).emit();
     std::printf("O fork %d\n", f.ok && f.diff == 0 ? 1 : 0);
     vh::D(keyOf("fork", f.m, f.k));
     vh::P("bitwise_equal", keyOf("fork", f.m, f.k), f.diff, 0);
+    g_curDead = f.dead; g_curProgress = f.progress; endScenario(keyOf("fork", f.m, f.k));
 }
 
 static void replay() {
@@ -298,6 +400,7 @@ static void replay() {
         if (k != "I") continue;
         if (fn == "fork") { int m, kk; long long p; if (is >> m >> kk >> p && m >= 0 && m < NMODEL && kk >= 0 && kk < NINTEG && fi < forks.size()) emitFork(forks[fi++]); }
         else if (fn == "repeat") { int m, kk, v; long long p; if (is >> m >> kk >> p >> v && m >= 0 && m < NMODEL && kk >= 0 && kk < NINTEG && v >= 0 && v <= 2) doRepeat(m, kk, (uint64_t)p, v); }
+        else if (fn == "aux") { int w; long long p; if (is >> w >> p && w >= 0 && w < 3) doAux(w, (uint64_t)p); }
         else if (fn == "interleave") {
             long long n; if (!(is >> n) || n < 0 || n > 1000) continue;
             std::vector<int> sched((size_t)n); bool ok = true;
@@ -333,5 +436,9 @@ int main(int argc, char** argv) {
         for (auto& o : sched) o = r.below(3);
         doInterleave(sched, m, k, r.next() % 1000);
     }
+    // 4. the classified statics outside simulation: Assembler default goal, IPOPT, seeded CMA-ES
+    for (long i = 0; i < n / 4 + 3; ++i) doAux((int)(i % 3), r.next() % 1000);
+    // 5. floor: most scenarios must really have simulated something to the end
+    if (g_scenarios > 0) vh::P("dead_share", "scenarios.dead_share", (double)g_deadScenarios / (double)g_scenarios, 0.05);
     return sink == 12345.678 ? 1 : 0;
 }
